@@ -106,6 +106,10 @@ func (g *Gen) amount(capv *big.Int, label string) (*big.Int, string) {
 	if capv.Sign() <= 0 {
 		return big.NewInt(1), "amt-ok"
 	}
+	// the boundary "everything" is a legal, common request: not only a hostile one
+	if g.Uniform(12, label+"-all") == 0 {
+		return new(big.Int).Set(capv), "amt-all"
+	}
 	// 1..cap, biased small
 	c := capv
 	if c.IsInt64() {
